@@ -427,3 +427,115 @@ impl TwoQM {
         }
     }
 }
+
+// ---------------------------------------------------------------------------------------------
+// ARC (C09).  Resident lists and p are deterministic; ghost lists are checked relationally by
+// the harness (the statement lets ARC discard ghosts silently), so the model only says which
+// entry becomes a ghost of which list.
+
+#[derive(Clone, Copy)]
+pub struct ArcM {
+    pub size: usize,
+    pub p: usize,
+    /// recent (T1)
+    pub t1: ML,
+    /// frequent (T2)
+    pub t2: ML,
+    /// recent ghosts (B1)
+    pub b1: ML,
+    /// frequent ghosts (B2)
+    pub b2: ML,
+}
+
+/// What the oracle prescribes for the ghost lists after a step.
+#[derive(Clone, Copy)]
+pub struct ArcGhost {
+    /// entry that must now be the most recent ghost of B1 / B2
+    pub to_b1: Option<(u8, u8)>,
+    pub to_b2: Option<(u8, u8)>,
+    /// key that must no longer be a ghost
+    pub revived: Option<u8>,
+}
+
+impl ArcM {
+    pub fn val(&self, k: u8) -> Option<u8> {
+        match self.t1.val(k) {
+            Some(v) => Some(v),
+            None => self.t2.val(k),
+        }
+    }
+    pub fn retained(&self, k: u8) -> bool {
+        self.t1.has(k) || self.t2.has(k) || self.b1.has(k) || self.b2.has(k)
+    }
+    pub fn any_val(&self, k: u8) -> Option<u8> {
+        if let Some(v) = self.val(k) {
+            return Some(v);
+        }
+        match self.b1.val(k) {
+            Some(v) => Some(v),
+            None => self.b2.val(k),
+        }
+    }
+    /// get / get_mut
+    pub fn access(&mut self, k: u8) -> Option<u8> {
+        if let Some(v) = self.t1.remove_key(k) {
+            self.t2.push_front(k, v);
+            return Some(v);
+        }
+        self.t2.touch(k)
+    }
+    /// victim selection with the (already adapted) p; falls back to the non-empty list
+    fn replace(&mut self, b2_hit: bool, gh: &mut ArcGhost) {
+        let prefer_t1 = self.t1.n > self.p || (self.t1.n == self.p && b2_hit);
+        let from_t1 = if prefer_t1 { self.t1.n > 0 } else { self.t2.n == 0 };
+        if from_t1 {
+            if let Some(e) = self.t1.pop_back() {
+                gh.to_b1 = Some(e);
+            }
+        } else if let Some(e) = self.t2.pop_back() {
+            gh.to_b2 = Some(e);
+        }
+    }
+    pub fn put(&mut self, k: u8, v: u8) -> (MPut, ArcGhost) {
+        let mut gh = ArcGhost {
+            to_b1: None,
+            to_b2: None,
+            revived: None,
+        };
+        if let Some(old) = self.t1.remove_key(k) {
+            self.t2.push_front(k, v);
+            return (MPut::Update(old), gh);
+        }
+        if let Some(old) = self.t2.touch(k) {
+            self.t2.set_val(k, v);
+            return (MPut::Update(old), gh);
+        }
+        let full = self.t1.n + self.t2.n >= self.size;
+        let (n1, n2) = (self.b1.n, self.b2.n);
+        if let Some(old) = self.b1.val(k) {
+            let delta = if n2 > n1 { n2 / n1 } else { 1 };
+            self.p = if self.p + delta >= self.size { self.size } else { self.p + delta };
+            if full {
+                self.replace(false, &mut gh);
+            }
+            gh.revived = Some(k);
+            self.t2.push_front(k, v);
+            return (MPut::Update(old), gh);
+        }
+        if let Some(old) = self.b2.val(k) {
+            let delta = if n1 > n2 { n1 / n2 } else { 1 };
+            self.p = if delta >= self.p { 0 } else { self.p - delta };
+            if full {
+                self.replace(true, &mut gh);
+            }
+            gh.revived = Some(k);
+            self.t2.push_front(k, v);
+            return (MPut::Update(old), gh);
+        }
+        if full {
+            self.replace(false, &mut gh);
+        }
+        self.t1.push_front(k, v);
+        (MPut::Put, gh)
+    }
+}
